@@ -82,7 +82,7 @@ def _guard(fn, kw):
         return {"error": "error", "exc": type(ex).__name__}
 
 
-QUICK_CAP = 600        # cases per relation in the quick tier (witness inputs are always kept)
+QUICK_CAP = 600        # cases per relation in the quick tier (witness inputs and regression inputs `keep` are always kept)
 QUICK_ORACLE_CAP = 250
 
 
@@ -104,7 +104,7 @@ def all_cases(ctx, cap=None):
     for name, cs in by.items():
         if len(cs) > cap:
             R = reg[name]
-            wit = [c for c in cs if R.domain(c[1], c[2]) == "witness"]
+            wit = [c for c in cs if R.domain(c[1], c[2]) == "witness" or (isinstance(c[2], dict) and c[2].get("keep"))]
             rest = [c for c in cs if not any(c is w for w in wit)]
             cs = wit + ctx.rng.sample(rest, min(cap, len(rest)))
             ctx.count("quick_cap:" + name)
